@@ -38,7 +38,12 @@ def gen_parts(rng, cfg, tier, n_basic=None, derived=True):
         if cfg.get("weights") and rng.random() < 0.25:
             w = [rng.choice([1, 2]) for _ in range(n)]
         factors.append(_basic(i, n, w))
-    if derived and cfg.get("derived", 0) and rng.random() < 0.5:
+    if derived and cfg.get("focus") == "parallel-start":
+        c = dict(_small_cfg(rng, cfg), win_within=False, win_transition=True, win_window=rng.random() < 0.3)
+        d = gen._gen_derived(rng, c, factors, 0)
+        if d is not None and d["window"]["stride"] == 1:
+            factors.append(d)
+    elif derived and cfg.get("derived", 0) and rng.random() < 0.5:
         d = gen._gen_derived(rng, _small_cfg(rng, cfg), factors, 0)
         if d is not None:
             factors.append(d)
@@ -90,9 +95,20 @@ def gen_combinator_design(rng, cfg, tier, shape=None):
         sizes = set(size_of(c) for c in crossings)
         if mode == "equal" and len(sizes) > 1 and rng.random() < 0.8:
             mode = rng.choice(["weight", "repeat"])
+        align = rng.choice(ALIGNS)
+        if cfg.get("focus") == "parallel-start":
+            # crossings with different preamble lengths, any order, under every alignment that accepts them
+            cplx = [d for d in derived if fb[d]["window"]["kind"] != "within"]
+            if cplx:
+                with_pre = [cplx[0]] + ([rng.choice(basics)] if rng.random() < 0.4 else [])
+                without = [c for c in crossings if not any(x in cplx for x in c)] or [[basics[0]]]
+                crossings = [with_pre] + without[:2] if rng.random() < 0.6 else without[:2] + [with_pre]
+                crossings = [c for i, c in enumerate(crossings) if c not in crossings[:i] and size_of(c) <= cfg.get("max_cross", 6) + 2]
+                T = max(size_of(c) for c in crossings)
+            align = rng.choice(["parallel start", "parallel start", "post preamble"])
         blk = {"kind": "multicross", "design": ids, "crossings": crossings,
                "constraints": cons(rng.choice([0, 0, 1, 2]), [k for k in cfg["kinds"] if k not in ("latinsquare",)] or ["atmost"], T),
-               "rcc": True, "mode": mode, "alignment": rng.choice(ALIGNS)}
+               "rcc": True, "mode": mode, "alignment": align}
         if rng.random() < 0.25:
             blk["constraints"].append({"id": "m0", "kind": "mintrials", "n": rng.randint(1, min(cfg["max_T"], 2 * T + 1))})
         return {"factors": factors, "block": blk}
@@ -121,6 +137,15 @@ def gen_combinator_design(rng, cfg, tier, shape=None):
         cb = [b]
         if derived and rng.random() < 0.3 and cfg.get("cross_derived"):
             cb = [derived[0]]
+        malign = None
+        if cfg.get("focus") == "parallel-start":
+            cplx = [d for d in derived if fb[d]["window"]["kind"] != "within"]
+            if cplx:
+                if rng.random() < 0.6:
+                    ca = [cplx[0]]
+                else:
+                    cb = [cplx[0]]
+            malign = rng.choice(["parallel start", "parallel start", "post preamble", None])
         b1 = _cross(ids, ca, cons(rng.choice([0, 1]), SCOPED_KINDS, size_of(ca)))
         b2 = _cross(ids, cb, cons(rng.choice([0, 1]), SCOPED_KINDS, size_of(cb)))
         mode = rng.choice(["repeat", "repeat", "weight", "equal"])
@@ -130,7 +155,7 @@ def gen_combinator_design(rng, cfg, tier, shape=None):
         if rng.random() < 0.2:
             top.append({"id": "mm", "kind": "mintrials", "n": rng.randint(1, min(cfg["max_T"], 2 * max(size_of(ca), size_of(cb))))})
         return {"factors": factors, "block": {"kind": "merge", "blocks": [b1, b2] if rng.random() < 0.8 else [b1],
-                                              "constraints": top, "mode": mode, "alignment": None}}
+                                              "constraints": top, "mode": mode, "alignment": malign}}
     # nest: outer and inner crossings over disjoint basic factors, no preambles
     o, i = basics[0], basics[1]
     extra = basics[2:] if len(basics) > 2 else []
@@ -138,6 +163,12 @@ def gen_combinator_design(rng, cfg, tier, shape=None):
     inner_design = [i] + [x for x in extra if x not in outer["design"]]
     inner = _cross(inner_design, [i], cons(rng.choice([0, 1, 1]), SCOPED_KINDS, size_of([i])))
     inner["constraints"] = [c for c in inner["constraints"] if c.get("target", [None])[0] in inner_design]
+    # operand blocks longer than one crossing round: whole multiples and non-multiples of the crossing size
+    si, so = size_of([i]), size_of([o])
+    if rng.random() < 0.35:
+        inner["constraints"].append({"id": "mti", "kind": "mintrials", "n": rng.choice([si + 1, 2 * si, 2 * si, 2 * si + 1, 3 * si])})
+    if rng.random() < 0.15:
+        outer["constraints"].append({"id": "mto", "kind": "mintrials", "n": rng.choice([so + 1, 2 * so])})
     top = cons(rng.choice([0, 0, 1]), SCOPED_KINDS, size_of([o]) * size_of([i]))
     used = set(outer["design"]) | set(inner["design"])
     top = [c for c in top if c.get("target", [None])[0] in used]
